@@ -1161,6 +1161,11 @@ func c14Sources() []c14Src {
 		{"sec.op.over", true, map[string]any{"opSecurity": []any{A}, "docSecurity": []any{[]any{"b"}}, "declared": []any{"a", "b"}, "accepted": []any{"b"}}},
 		{"sec.op.over", false, map[string]any{"opSecurity": []any{A}, "docSecurity": []any{[]any{"b"}}, "declared": []any{"a", "b"}, "accepted": []any{"a"}}},
 		{"sec.op.none", false, map[string]any{"opSecurity": []any{}, "docSecurity": []any{A}, "declared": []any{"a"}, "accepted": []any{}}},
+		// the empty requirement {} needs no authentication — alone, as the alternative after a failing one, at operation level
+		{"sec.doc.empty", false, map[string]any{"docSecurity": []any{[]any{}}, "declared": []any{"a"}, "accepted": []any{}}},
+		{"sec.doc.alt_empty", false, map[string]any{"docSecurity": []any{A, []any{}}, "declared": []any{"a"}, "accepted": []any{}}},
+		{"sec.op.empty", false, map[string]any{"opSecurity": []any{[]any{}}, "docSecurity": []any{A}, "declared": []any{"a"}, "accepted": []any{}}},
+		{"sec.op.alt_empty", false, map[string]any{"opSecurity": []any{[]any{"u"}, []any{}}, "declared": []any{"a"}, "accepted": []any{}}},
 		{"body", false, map[string]any{"hasBody": true, "bodyFail": ""}},
 		{"body.schema", true, map[string]any{"hasBody": true, "bodyFail": "schema"}},
 		{"body.empty", true, map[string]any{"hasBody": true, "bodyFail": "empty"}},
